@@ -92,7 +92,7 @@ CHECKS = {
   "DESIGN.md §5 C07"),
  "C09": ("seqx+coop",
   "explicit-state search over socket-set histories (open orders, closes, interface toggles) on the real stack with exhaustive injection of the inbound 4-tuple alphabet after every operation, against a most-specific-match reference; stateless model checking (cooperative scheduler, all schedules) of registration/unregistration racing delivery",
-  "Sockets from {UDP bound *:P, A1:P, A2:P, A3:P (NIC 2), A1:P connected to R:Q, *:P connected to R:Q; the same connected through NIC 1 explicitly, A1:P bound on NIC 1, *:P bound on NIC 2; TCP listener *:P, A1:P}: all sets of size <=3 in all open orders, then each single close; toggles promiscuous on and off again / subnet added and removed again / removal of the second local address (sockets bound to it stay open); every connected socket connecting again to the peer it already has; a TCP connection A1:P<-R:Q established through the listener (its in-sequence data must reach the connection, a SYN on its 4-tuple creates nothing); after each operation every packet of dst {A1,A2,A3,foreign,unassigned} x dport {P,P'} x src {R,R'} x sport {Q,Q'} x {UDP, TCP SYN, TCP ACK+data} on each NIC is injected and the receiving socket (or the reset / ICMP-free silence) compared with the most-specific-match reference; each datagram reaches exactly one socket, never a closed one. Concurrent programs (bind/close racing delivery) over all schedules: each datagram reaches at most one socket, one registered at some time during the delivery, the more specific one if it was registered throughout.",
+  "Sockets from {UDP bound *:P, A1:P, A2:P, A3:P (NIC 2), A1:P connected to R:Q, *:P connected to R:Q; the same connected through NIC 1 explicitly, A1:P bound on NIC 1, *:P bound on NIC 2; TCP listener *:P, A1:P}: all sets of size <=3 in all open orders, then each single close; toggles promiscuous on and off again / subnet added and removed again / removal of the second local address (sockets bound to it stay open); every connected socket connecting again to the peer it already has; a TCP connection A1:P<-R:Q established through the listener (its in-sequence data must reach the connection, a SYN on its 4-tuple creates nothing); after each operation every packet of dst {A1,A2,A3,foreign,unassigned} x dport {P,P'} x src {R,R'} x sport {Q,Q'} x {UDP, TCP SYN, TCP ACK+data} on each NIC is injected and the receiving socket (or the reset / ICMP-free silence) compared with the most-specific-match reference; each datagram reaches exactly one socket, never a closed one. Address families: seven UDP socket kinds (IPv4, IPv6 dual-stack, v4-mapped wildcard and specific, IPv6-only, IPv6 specific) alone and in ordered pairs, one IPv4 and one IPv6 datagram to the port: each reaches exactly the most specific socket bound for its family. Concurrent programs (bind/close racing delivery) over all schedules: each datagram reaches at most one socket, one registered at some time during the delivery, the more specific one if it was registered throughout.",
   "Known finding D25 (a later listener on A1:port shadows an actively opened connection on that port; `shadow` job). The concurrent part uses a single-NIC world (NIC map iteration order is not controlled).",
   "DESIGN.md §5 C09"),
  "C12": ("enum+envx+seqx",
